@@ -7,8 +7,9 @@
 (* one complete run of kio's decoder on one input, observed at its         *)
 (* linearisation point (the return or the raise) together with the source  *)
 (* position and the number of read calls.  Two kinds of case:              *)
-(*   "trunc" (C06): the input is the first k bytes of Enc(schema, value) - *)
-(*      a crash point of the stream.  The only allowed status is underflow,*)
+(*   "trunc" (C06): the input is the first k bytes of a conforming encoding *)
+(*      of (schema, value) - the canonical one or a variant with explicit  *)
+(*      defaults / unknown tagged fields - a crash point of the stream.  The only allowed status is underflow,*)
 (*      with consumed <= k.  (That no strict prefix can decode is the      *)
 (*      model-checked lemma PrefixFree of MC_Codec; on the first probes of *)
 (*      each case the strict decoder Dec is evaluated here as well.)       *)
@@ -38,8 +39,8 @@ Load ==
   /\ phase = "load"
   /\ IF ci > N THEN phase' = "done" /\ UNCHANGED <<ci, pi, base, fails, lenient>>
      ELSE /\ phase' = "probe" /\ pi' = 1 /\ lenient' = 0
-          /\ base' = IF C.mode = "trunc" THEN Enc(S, ExpandV(C.value)) ELSE <<>>
-          /\ fails' = IF C.mode = "trunc" /\ Bytes(C.enc) # Enc(S, ExpandV(C.value))
+          /\ base' = IF C.mode = "trunc" THEN EncStructV(S, ExpandV(C.value), C.var) ELSE <<>>
+          /\ fails' = IF C.mode = "trunc" /\ Bytes(C.enc) # EncStructV(S, ExpandV(C.value), C.var)
                       THEN {[c |-> "harness_input_mismatch", p |-> 0]} ELSE {}
           /\ UNCHANGED ci
 
